@@ -63,7 +63,7 @@ def real_const(x):
     if isinstance(x, float):
         if math.isinf(x) or math.isnan(x):
             raise Unsupported("infinite/nan constant inside a finite term")
-        f = Fraction(repr(x))
+        f = Fraction(repr(float(x)))        # float(): numpy.float64 prints as np.float64(..)
         if f.denominator == 1:
             return z3.RealVal(str(f.numerator))
         return z3.Q(f.numerator, f.denominator)
